@@ -1,5 +1,7 @@
 // Support code of the generated C10 / C11 correspondence programs (see checks/props/adapt_gen.py).
-//   C10: recording targets (free function templates and functor classes) of arity 0..6 over int/long/double
+//   C10: recording targets (free function templates and functor classes) of arity 0..6 over int/long/double and the
+//        move-sensitive class MStr; targets returning T& / const T& to pool objects (`cell<T>(id)`); the printed
+//        result says whether the adaptor's result is a reference and to which pool object it refers (by address)
 //   C11: `Obj` with address identity and copy/move accounting, recording/mutating targets
 // Every generated case prints exactly one line:  "<case-id> <canonical observation>"
 #ifndef VERIF_ADAPT_SUPPORT_H
@@ -11,6 +13,7 @@
 #include <cstdio>
 #include <functional>
 #include <map>
+#include <memory>
 #include <string>
 #include <type_traits>
 #include <utility>
@@ -33,6 +36,57 @@ inline void put(std::string& s, int v) { s += "i:" + std::to_string(v); }
 inline void put(std::string& s, long v) { s += "l:" + std::to_string(v); }
 inline void put(std::string& s, double v) { s += "d:" + std::to_string(std::llround(v * 10.0)); }
 
+// a class whose VALUE changes when it is moved from (like std::string / std::vector): payload `v`, a moved-from
+// MStr prints as "m:<moved>" and counts as -900000 in a target's result
+struct MStr
+{
+  long v;
+  bool moved = false;
+  explicit MStr(long v_) : v(v_) {}
+  MStr(const MStr& o) : v(o.v), moved(o.moved) {}
+  MStr(MStr&& o) : v(o.v), moved(o.moved)
+  {
+    o.moved = true;
+    o.v = 0;
+  }
+  MStr& operator=(const MStr&) = delete;
+  explicit operator long() const { return moved ? -900000L : v; }
+};
+inline void put(std::string& s, const MStr& m) { s += m.moved ? std::string("m:<moved>") : "m:" + std::to_string(m.v); }
+
+// pool objects that reference-returning targets refer to: cell<T>(id) (node based map: stable addresses)
+template<typename T>
+std::map<int, T>&
+cells()
+{
+  static std::map<int, T> m;
+  return m;
+}
+template<typename T>
+T&
+cell(int id)
+{
+  return cells<T>()[id];
+}
+// a pool object with a given content: the `x` of bind_return(f, std::ref(x)) / std::cref(x)
+template<typename T>
+T&
+setcell(int id, T v)
+{
+  T& c = cell<T>(id);
+  c = v;
+  return c;
+}
+template<typename T>
+std::string
+cell_name(const T* p)
+{
+  for (auto& kv : cells<T>())
+    if (&kv.second == p)
+      return std::to_string(kv.first);
+  return "x"; // not a pool object: a copy / a temporary
+}
+
 template<int ID, bool THROWS, typename Ret, typename... A>
 Ret
 leaf(A... a)
@@ -51,20 +105,70 @@ leaf(A... a)
   ((sum += (i++) * static_cast<long>(a)), ...);
   if constexpr (std::is_void<Ret>::value)
     return;
+  else if constexpr (std::is_reference<Ret>::value)
+  {
+    // `T& leaf(...)` / `const T& leaf(...)`: store the result in this target's pool object and return a reference to it
+    using T = std::remove_cv_t<std::remove_reference_t<Ret>>;
+    T& c = cell<T>(ID);
+    c = std::is_same<T, double>::value ? static_cast<T>(static_cast<double>(sum) + 0.5) : static_cast<T>(sum);
+    return c;
+  }
   else if constexpr (std::is_same<Ret, double>::value)
     return static_cast<double>(sum) + 0.5;
   else
     return static_cast<Ret>(sum);
 }
 
+// a target taking every parameter by const reference and recording WHICH object it is: "cref:<t>:<pool object>:<n>" when
+// the parameter is a pool object (a getter's reference result handed on as it is), "<t>:<n>" when it is a temporary / a copy
+template<typename T>
+void
+putp(std::string& s, const T& a)
+{
+  std::string n = cell_name<T>(&a);
+  std::string v;
+  put(v, a);
+  s += n == "x" ? v : "cref:" + v.substr(0, 2) + n + v.substr(1);
+}
+
+template<int ID, bool THROWS, typename Ret, typename... T>
+Ret
+pleaf(const T&... a)
+{
+  std::string& s = buf();
+  if (!s.empty())
+    s += ";";
+  s += std::to_string(ID) + "(";
+  int n = 0;
+  ((s += (n++ ? "," : ""), putp<T>(s, a)), ...);
+  s += ")";
+  if (THROWS)
+    throw Thrown();
+  long sum = ID * 100L;
+  long i = 1;
+  ((sum += (i++) * static_cast<long>(a)), ...);
+  if constexpr (std::is_void<Ret>::value)
+    return;
+  else if constexpr (std::is_same<Ret, double>::value)
+    return static_cast<double>(sum) + 0.5;
+  else
+    return static_cast<Ret>(sum);
+}
+
+template<int ID, bool THROWS, typename Ret, typename... T>
+struct PRec
+{
+  Ret operator()(const T&... a) const { return pleaf<ID, THROWS, Ret, T...>(a...); }
+};
+
 // the same target as a functor class (reached through adaptor_functor, not pointer_functor)
 template<int ID, bool THROWS, typename Ret, typename... A>
 struct Rec
 {
-  Ret operator()(A... a) const { return leaf<ID, THROWS, Ret, A...>(a...); }
+  Ret operator()(A... a) const { return leaf<ID, THROWS, Ret, A...>(std::forward<A>(a)...); }
 };
 
-// a target accepting any number of int/long/double arguments (variadic template operator())
+// a target accepting any number of int/long/double/MStr arguments BY VALUE (variadic template operator())
 template<int ID, bool THROWS, typename Ret>
 struct VRec
 {
@@ -137,6 +241,16 @@ finish(int id, F&& f)
     {
       f();
       res = "unit";
+    }
+    else if constexpr (std::is_lvalue_reference<decltype(f())>::value)
+    {
+      // the adaptor's result is a reference: say to which pool object (compared by address) and what it holds
+      decltype(f()) r = f();
+      using T = std::remove_cv_t<std::remove_reference_t<decltype(f())>>;
+      std::string v;
+      put(v, r); // "<t>:<n>"
+      res = std::string(std::is_const<std::remove_reference_t<decltype(f())>>::value ? "cref:" : "ref:") +
+            v.substr(0, 2) + cell_name<T>(&r) + v.substr(1);
     }
     else
     {
